@@ -6,8 +6,9 @@ import random
 TOKS = "abcdefgh"
 
 
-def win(orient="after", r=2, offset=0, knorm=False, mix=1, table=None):
-    return {"orient": orient, "r": r, "offset": offset, "knorm": knorm, "mix": mix, "table": table}
+def win(orient="after", r=2, offset=0, knorm=False, mix=1, table=None, var=None):
+    """var: None (fixed radius r, or the radius table) or the power 0 / 2 of window_functions="variable" (r is then the base size)"""
+    return {"orient": orient, "r": r, "offset": offset, "knorm": knorm, "mix": mix, "table": table, "var": var}
 
 
 def cfg(kernel="flat", wnorm=False, wins=None, nullify=False):
@@ -23,7 +24,7 @@ def tla_cfg(c, V):
         if c["nullify"]:
             tab[V] = 0
         ws.append({"orient": w["orient"], "radius": tab, "offset": w["offset"], "knorm": bool(w["knorm"]),
-                   "mix": w["mix"]})
+                   "mix": w["mix"], "var": -1 if w.get("var") is None else int(w["var"]), "ws": w["r"]})
     return {"kernel": c["kernel"], "wnorm": bool(c["wnorm"]), "nullify": bool(c["nullify"]), "wins": ws}
 
 
@@ -58,7 +59,8 @@ def wide_cfgs(V, seed, n):
 
 def describe(c):
     return "%s wnorm=%s nullify=%s " % (c["kernel"], c["wnorm"], c["nullify"]) + " ".join(
-        "[%s r=%s off=%d knorm=%s mix=%s]" % (w["orient"], w["table"] or w["r"], w["offset"], w["knorm"], w["mix"])
+        "[%s r=%s%s off=%d knorm=%s mix=%s]" % (w["orient"], w["table"] or w["r"], "" if w.get("var") is None else " variable(power=%s)" % w["var"],
+                                                   w["offset"], w["knorm"], w["mix"])
         for w in c["wins"])
 
 
@@ -101,3 +103,19 @@ def multi_cfgs(V, seed, n):
                           rng.random() < 0.3, rng.choice([1, 1, 2]), table))
         out.append(cfg(kernel, rng.random() < 0.5, ws))
     return out[:n]
+
+
+def with_variable(cfgs, rng, share=0.5):
+    """copies of configurations in which some windows use window_functions="variable" (power 0 or 2, base size 1..3)"""
+    out = []
+    for c in cfgs:
+        c = dict(c, wins=[dict(w) for w in c["wins"]])
+        hit = False
+        for w in c["wins"]:
+            if w["table"] is None and (rng.random() < share or not hit):
+                w["var"] = rng.choice([0, 2])
+                w["r"] = rng.choice([1, 2, 2, 3])
+                hit = True
+        if hit:
+            out.append(c)
+    return out
